@@ -1085,7 +1085,16 @@ fn gen_bomb_case(p: &mut Prng, id: &str, i: u64, big: u64, w: &mut dyn Write) {
     let m = small_machine(p);
     let raw = bincode_of(&m);
     let mib = 1usize << 20;
-    let (tag, payload): (&str, Vec<u8>) = match i % 9 {
+    let (tag, payload): (&str, Vec<u8>) = match i % 11 {
+        9 | 10 => {
+            // an incompressible head (more compressed input than the decoder's 32 KiB buffer holds is
+            // consumed before the output limit is reached: short reads in the middle), then a long run of zeros
+            let head = if i % 11 == 9 { 48 * 1024 } else { 200 * 1024 };
+            let mut v: Vec<u8> = (0..head).map(|_| (p.next() >> 24) as u8).collect();
+            let n = if big > 0 { 128 * mib } else { 24 * mib };
+            v.extend(std::iter::repeat(0u8).take(n));
+            ("noise-head+zeros", v)
+        }
         8 => {
             // a valid machine of exactly MAX bytes followed by more data: the buffer is full
             // after the machine, the rest of the stream is never read
